@@ -30,17 +30,17 @@ type Result struct {
 	Overrun   bool       `json:"overrun,omitempty"`
 	// Poisoned: goroutines of this run may still be alive (engine B only); the worker
 	// process must not start another run.
-	Poisoned bool `json:"poisoned,omitempty"`
-	Stats     Stats      `json:"-"`
-	SigShape  uint64     `json:"-"`
-	SigSched  uint64     `json:"-"`
-	States    []uint64   `json:"-"`
-	Trace     []uint32   `json:"trace,omitempty"`
-	Bounds    []uint32   `json:"-"`
-	Log       []string   `json:"log,omitempty"`
-	LogHash   uint64     `json:"log_hash"`
-	Sample    []string   `json:"sample,omitempty"`
-	Exhausted int        `json:"-"`
+	Poisoned  bool     `json:"poisoned,omitempty"`
+	Stats     Stats    `json:"-"`
+	SigShape  uint64   `json:"-"`
+	SigSched  uint64   `json:"-"`
+	States    []uint64 `json:"-"`
+	Trace     []uint32 `json:"trace,omitempty"`
+	Bounds    []uint32 `json:"-"`
+	Log       []string `json:"log,omitempty"`
+	LogHash   uint64   `json:"log_hash"`
+	Sample    []string `json:"sample,omitempty"`
+	Exhausted int      `json:"-"`
 }
 
 // RunOne executes one simulated run of scn with the given choice source.
